@@ -355,7 +355,7 @@ def objscan(chk):
         chk.analysis_broken("objscan: only %d units compiled" % ncomp)
 
 
-META_EXTRA = 'Pointer-formation obligations and counting-loop reachability extend BOUND.'
+META_EXTRA = "Pointer-formation obligations and counting-loop reachability extend BOUND; SLOTS-U (range writes into the strings' inline buffers stay at or below capacity()); INIT covers aggregate state of nested layouts."
 META = (META[0] + " " + META_EXTRA, META[1])
 
 
